@@ -124,16 +124,24 @@ def rule_gates(ctx):
     _mac_inputs(ctx, R, fi, g, "data")
 
 
-def _mac_inputs(ctx, R, fi, g, var):
+def _mac_inputs(ctx, R, fi, g, var, state="self._readState"):
+    """calculateMAC(m, s, type, data): m is a copy of the read state's MAC context, s that state's next
+    sequence number (each through its reaching definition, whatever the locals are called)."""
+    from ..flow import reaching_defs
     calc = [n for n in g.nodes if n.kind == "stmt" and "self.calculateMAC(" in norm(n.ast)]
     ok = False
     if calc:
         c = [x for x in calls_in(calc[0].ast) if call_name(x) == "calculateMAC"][0]
-        args = [norm(a) for a in c.args]
-        ok = args == ["mac", "seqnumBytes", "recordType", var]
-        src = [norm(n.ast) for n in g.nodes if n.kind == "stmt"]
-        ok = ok and "seqnumBytes = self._readState.getSeqNumBytes()" in src and \
-            "mac = self._readState.macContext.copy()" in src
+
+        def src(a):
+            if isinstance(a, ast.Name):
+                ds = reaching_defs(g, calc[0], a.id)
+                vals = {norm(d.ast.value) for d in ds if d.ast is not None and isinstance(d.ast, ast.Assign)}
+                return vals if len(vals) == 1 and len(ds) == 1 else {norm(a)}
+            return {norm(a)}
+        ok = len(c.args) == 4 and src(c.args[0]) == {state + ".macContext.copy()"} \
+            and src(c.args[1]) == {state + ".getSeqNumBytes()"} and norm(c.args[2]) == "recordType" \
+            and norm(c.args[3]) == var
     ctx.check(R, ok, fi.qname, "MAC computed over (read seqnum, type, data) with the read MAC key",
               "the receive-side MAC must be computed with the read state's key and sequence number over "
               "the record type and the data", fi.loc(calc[0].ast) if calc else fi.loc())
